@@ -18,4 +18,9 @@ theorem reason_table_matches : ∀ p ∈ reasonTable, reasonStr p.1 = p.2 := by 
     that is delivered (`client_view_fits`), one of that length or more is F17e (`client_long_line`) -/
 theorem client_limit_documented : clientMaxLine = 512000 := by decide
 
+/-- the error text the model's handlers send for a run that ends without a done chunk (`sIncomplete`,
+    used by `one_final_*_fixedD`) is the real `errIncompleteResponse`, and the client's refusal of an
+    over-long line (`sTooLong`, `client_long_line`) is the real `bufio.ErrTooLong` -/
+theorem error_texts_match : incompleteMsg = sIncomplete ∧ tooLongMsg = sTooLong := by decide
+
 end OllamaVerif.Tie.C17
